@@ -86,6 +86,36 @@ def gen_cases(job):
             st = gen.rnd_stack(rng)
             s = gen.gen_bytes(rng)
             cases.append(dict(script=s, stack=st, flags=fl, sv=sv, layer=layer))
+    elif layer == 'succ':
+        # scriptSig followed by a scriptPubKey (legacy spend shape): consensus rules at the seam - each script must balance
+        # its conditionals on its own, the alt stack is not carried over, the op count starts again
+        for i in range(n):
+            fl = gen.rnd_flags(rng) & ~F["SIGPUSHONLY"]
+            st = []
+            k = rng.random()
+            sig = gen.strip_sigops(gen.gen_deep(rng, BASE, fl, rng.choice([1, 2, 4, 8]), [], fail_keep=0.05))
+            # run the reference on the scriptSig to know the stack the scriptPubKey starts from
+            it = Interp(sig, [], fl, BASE)
+            ok = True
+            try:
+                while not it.at_end():
+                    it.step()
+            except (ScriptFail, NumErr):
+                ok = False
+            start = list(it.stack) if ok else []
+            spk = gen.strip_sigops(gen.gen_deep(rng, BASE, fl, rng.choice([1, 3, 8, 20]), start, fail_keep=0.2))
+            if k < 0.15:
+                sig += bytes([OP_1, OP_IF])                 # conditional left open by the scriptSig ...
+                spk = bytes([OP_ENDIF]) + spk                 # ... and closed by the scriptPubKey
+            elif k < 0.3:
+                sig += bytes([OP_5, OP_TOALTSTACK])
+                spk = bytes([OP_FROMALTSTACK, OP_DROP]) + spk
+            elif k < 0.4:
+                sig = bytes([OP_NOP]) * rng.choice([150, 200, 201]) + sig
+                spk = bytes([OP_NOP]) * rng.choice([100, 200, 201, 202]) + spk
+            if is_p2sh(spk) or not spk:
+                spk = bytes([OP_NOP]) + spk
+            cases.append(dict(script=sig, stack=st, flags=fl, sv=BASE, layer=layer, succ=spk))
     elif layer == 'p2sh':
         # plain scripts that are exactly the P2SH template: the last stack item is the serialized script
         for i in range(n):
@@ -103,7 +133,9 @@ def gen_cases(job):
             cases.append(dict(script=bytes([OP_HASH160, 20]) + h + bytes([OP_EQUAL]), stack=st, flags=fl, sv=sv, layer=layer))
     for i, c in enumerate(cases):
         c['id'] = '%s.%d.%d' % (layer, idx, i)
-        if layer != 'p2sh':
+        if layer == 'succ':
+            pass
+        elif layer != 'p2sh':
             c['script'] = gen.strip_sigops(c['script'])
         else:
             c['stack'] = c['stack'][:-1] + [gen.strip_sigops(c['stack'][-1])] if c['stack'] else c['stack']
@@ -236,7 +268,7 @@ def execute(bindir, cases, part, tag='c01', post=None):
         for c in cases:
             extra = ['SS %s' % hexs(c['succ'])] if c.get('succ') else []
             hc.append((c['id'], case_cmds(c['id'], c['script'], c['stack'], c['flags'], c['sv'], extra=extra)))
-            if c['layer'] in ('deep', 'p2sh', 'rand', 'limit') or (c['layer'].startswith('exh') and zlib.crc32(c['id'].encode()) % 7 == 0):
+            if c['layer'] in ('deep', 'p2sh', 'rand', 'limit', 'succ') or (c['layer'].startswith('exh') and zlib.crc32(c['id'].encode()) % 7 == 0):
                 c['cont'] = True
                 hc.append((c['id'] + '/c', case_cmds(c['id'] + '/c', c['script'], c['stack'], c['flags'], c['sv'], tail=('C',), extra=extra)))
         events, crashes, hangs = run_harness_cases(bindir, hc, wd)
@@ -275,6 +307,7 @@ def plan(tier):
         jobs += [('rand', i, 500, tier) for i in range(8)]
         jobs += [('bytes', i, 500, tier) for i in range(8)]
         jobs += [('p2sh', i, 250, tier) for i in range(4)]
+        jobs += [('succ', i, 400, tier) for i in range(8)]
     else:
         jobs += [('exh1', i, 8, tier) for i in range(8)]
         jobs += [('exh2', i, (240, 1), tier) for i in range(240)]
@@ -282,6 +315,7 @@ def plan(tier):
         jobs += [('rand', i, 1000, tier) for i in range(60)]
         jobs += [('bytes', i, 1000, tier) for i in range(60)]
         jobs += [('p2sh', i, 500, tier) for i in range(40)]
+        jobs += [('succ', i, 1000, tier) for i in range(60)]
     return jobs
 
 
@@ -327,7 +361,7 @@ def main():
     steps = rep.tables.get('step_events', {}).get('n', 0)
     return rep.finish(
         rule='cases = (script, initial stack, flag word, sigversion); layers: exhaustive 1-op and 2-op scripts over the whole opcode alphabet '
-             '(signature opcodes excluded: C02), model-steered deep scripts, random op soups, byte-level mutations (refusal clause), P2SH-template scripts. '
+             '(signature opcodes excluded: C02), model-steered deep scripts, random op soups, byte-level mutations (refusal clause), P2SH-template scripts, scriptSig+scriptPubKey pairs (seam rules). '
              'non-trivial = distinct case whose trace executed >=3 non-push operations or ended in a script error, or a distinct out-of-domain script that was refused',
         assumptions=['ref/script.py is a faithful transcription of the consensus script rules (anchored by ./check selftest)',
                      'signature opcodes are exercised by C02, not here'],
